@@ -66,8 +66,65 @@ func restartCmd(out *cq.Out, seed uint64, tier string) {
 		}
 		os.RemoveAll(dir)
 	}
+	busyClose(out, seed)
 	largeRestart(out, rng, seed, tier)
 	out.Sample(map[string]interface{}{"stop_points": points, "kind": "child process: single-node raft cluster, workload, (in some incarnations a raft snapshot right before the stop), Close(true), exit; three incarnations per point"})
+}
+
+// busyClose: a clean stop requested while the state machine is in the middle of a large bulk (a node configured with a
+// short RaftApplyTimeout): Close must still wait for the state machine before it closes the stores - the process must not
+// die - and the node must come back with either all of the bulk or none of it, and go on from there.
+func busyClose(out *cq.Out, seed uint64) {
+	dir, _ := os.MkdirTemp(out.Dir, "rsbusy")
+	defer os.RemoveAll(dir)
+	port := freePorts(1)[0]
+	const bulk = 12000
+	desc := map[string]interface{}{"seed": seed, "scenario": "Close(true) while a bulk is being applied", "bulk": bulk, "raft_apply_timeout_ms": 50}
+	out.Note(desc)
+	o, err := runChild(out, childPlan{Dir: dir, Tag: "busy0", Entries: 4, Seed: seed, Raft: true, Port: port, BusyClose: bulk}, 0)
+	if strings.Contains(o, "STARTERR") || strings.Contains(o, "NOLEADER") {
+		out.Count("restart_skipped_infrastructure", 1)
+		return
+	}
+	out.Case("restart:busy-close", strings.Contains(o, "CLOSING-WHILE-APPLYING true"))
+	if err != nil || !strings.Contains(o, "CLOSED") {
+		why := "exit: " + fmt.Sprint(err)
+		for _, line := range strings.Split(o, "\n") {
+			if strings.Contains(line, "Assertion") || strings.HasPrefix(line, "panic:") || strings.Contains(line, "fatal error") || strings.Contains(line, "SIGABRT") || strings.Contains(line, "SIGSEGV") || strings.Contains(line, "signal arrived") {
+				why += " | " + line
+			}
+		}
+		out.Violate("C08:shutdown-does-not-complete:while-applying", fmt.Sprintf("a clean stop requested while the state machine was applying a bulk of %d events (RaftApplyTimeout 50 ms) did not complete: %.400s", bulk, why), desc)
+		return
+	}
+	o2, err2 := runChild(out, childPlan{Dir: dir, Tag: "busy1", Entries: 2, Seed: seed + 1, Raft: true, Port: port, Recover: true, Close: true}, 0)
+	if strings.Contains(o2, "STARTERR") || strings.Contains(o2, "NOLEADER") {
+		out.Count("restart_skipped_infrastructure", 1)
+		return
+	}
+	if err2 != nil || !strings.Contains(o2, "CLOSED") {
+		out.Violate("C08:cannot-restart:after-busy-close", fmt.Sprintf("the node stopped in the middle of a bulk does not come back: %v %.300s", err2, lastLines(o2, 6)), desc)
+		return
+	}
+	acks := readAcks(dir + "/acks.jsonl")
+	// the acknowledgements of the first life (4 small bulks), then - after the big bulk, applied entirely or not at all -
+	// those of the second life: versions must continue at base or at base + bulk
+	for i := 1; i < len(acks); i++ {
+		d := int64(acks[i].Version) - int64(acks[i-1].Version)
+		if d != 1 && d != 1+bulk {
+			out.Violate("C08:version-not-dense-across-restart:busy-close", fmt.Sprintf("after a stop in the middle of a bulk of %d events, consecutive acknowledged insertions carry versions %d and %d", bulk, acks[i-1].Version, acks[i].Version), desc)
+			break
+		}
+	}
+	out.Count("busy_close_runs", 1)
+}
+
+func lastLines(s string, n int) string {
+	ls := strings.Split(strings.TrimSpace(s), "\n")
+	if len(ls) > n {
+		ls = ls[len(ls)-n:]
+	}
+	return strings.Join(ls, " | ")
 }
 
 // largeRestart: a log of more than 1000 events (the hyper cache table then spans several reader pages), a clean
